@@ -611,6 +611,9 @@ package ggql
 //@           decreases len(err) - rangeindex
 
 //@ -- ------------------------------------------------------------------ resolve walk (C01, C06, C08, C09, C10)
+//@ -- the only library mutex that may be held while the resolve walk runs is the subscription registry's (AddEvent resolves
+//@ -- the subscriber's selection under it); in particular no object / field binding mutex is held
+//@ spec onlyRegistryLock(root *Root) bool = forall m int {held[m]} :: held[m] ==> m == addr(root.subLock)
 //@ -- recursion measure of the walk (C03: no stack overflow): (depth, rank of the function, structural height).
 //@ -- The heights are uninterpreted; their only axioms say that a wrapper type is higher than its base and that a selection
 //@ -- list is higher than its members and an inline fragment higher than its selection list (types and parsed documents
@@ -636,6 +639,7 @@ package ggql
 //@   assigns nothing
 
 //@ func (*Root).resolveInline
+//@   requires[binding-locks-free]{C12} onlyRegistryLock(root)
 //@   decreases{C03} depth
 //@   decreases 3
 //@   decreases selH(box(sel))
@@ -648,10 +652,11 @@ package ggql
 //@   requires root != nil && sel != nil && result != nil && t != nil
 //@   requires !skippedSel(box(sel), vars)
 //@   ensures[not-applicable]{C08} sel.Condition != nil && sel.Condition != t ==> len(ea) == 0 && #res == old(#res) && (forall k string :: (has(result, k) <==> old(has(result, k))) && result[k] == old(result[k]))
-//@   assigns fresh, result, H_Field.ConType, H_Object.meta, held, #res
+//@   assigns fresh, result, H_Field.ConType, H_Object.meta, H_FieldDef.goField, H_FieldDef.method, H_FieldDef.args, held, #res
 //@   ensures[locks-balanced]{C12,C20} held == old(held)
 
 //@ func (*Root).resolveFragRef
+//@   requires[binding-locks-free]{C12} onlyRegistryLock(root)
 //@   decreases{C03} depth
 //@   decreases 3
 //@   decreases selH(box(sel))
@@ -663,10 +668,11 @@ package ggql
 //@   requires root != nil && sel != nil && result != nil && t != nil
 //@   requires !skippedSel(box(sel), vars)
 //@   ensures[not-applicable]{C08} sel.Fragment.Condition != nil && sel.Fragment.Condition != t ==> len(ea) == 0 && #res == old(#res) && (forall k string :: (has(result, k) <==> old(has(result, k))) && result[k] == old(result[k]))
-//@   assigns fresh, result, H_Field.ConType, H_Object.meta, held, #res
+//@   assigns fresh, result, H_Field.ConType, H_Object.meta, H_FieldDef.goField, H_FieldDef.method, H_FieldDef.args, held, #res
 //@   ensures[locks-balanced]{C12,C20} held == old(held)
 
 //@ func (*Root).resolveSels
+//@   requires[binding-locks-free]{C12} onlyRegistryLock(root)
 //@   decreases{C03} depth
 //@   decreases 3
 //@   decreases selsH(sels)
@@ -678,7 +684,7 @@ package ggql
 //@   check frame {C11}
 //@   requires root != nil && result != nil
 //@   requires t != nil
-//@   assigns fresh, result, H_Field.ConType, H_Object.meta, held, #res
+//@   assigns fresh, result, H_Field.ConType, H_Object.meta, H_FieldDef.goField, H_FieldDef.method, H_FieldDef.args, held, #res
 //@   ensures[locks-balanced]{C12,C20} held == old(held)
 //@   loop 0: invariant[bounds] 0 <= rangeindex+1 && rangeindex+1 <= len(sels)
 //@           invariant[errs] errsFresh(ea)
@@ -810,11 +816,7 @@ package ggql
 
 //@ spec suppliedAny(field *Field, k string) bool = exists i int :: 0 <= i && i < len(field.Args) && field.Args[i] != nil && field.Args[i].Arg == k
 
-//@ func (*Root).resolveReflect
-//@   abstract reflection strategy (reflect.Value.Call and struct field reads are user data access)
-//@   requires field != nil
-//@   ensures errsFresh(ea)
-//@   assigns fresh, #res
+//@ -- (*Root).resolveReflect: contract in verif_contracts_c12.go
 
 //@ func (*Root).addError
 //@   abstract (not yet checked against the body)
@@ -831,15 +833,10 @@ package ggql
 //@   ensures[nonnil] err == nil && v != nil ==> res != nil
 //@   assigns fresh
 
-//@ func (*Object).metaCheck
-//@   abstract reflection binding lookup (reflect.Type identity is trusted)
-//@   requires t != nil
-//@   results meta, err
-//@   ensures aserr(err) == nil
-//@   assigns fresh, t.meta, held
-//@   ensures[locks-balanced]{C12,C20} held == old(held)
+//@ -- (*Object).metaCheck: contract in verif_contracts_c12.go
 
 //@ func (*Root).resolve
+//@   requires[binding-locks-free]{C12} onlyRegistryLock(root)
 //@   decreases{C03} depth
 //@   decreases 0
 //@   decreases typeH(t)
@@ -853,7 +850,7 @@ package ggql
 //@   ensures[null-depth]{C01} (depth <= 0 || isnilv(obj)) ==> result == obj && len(ea) == 0 && #res == old(#res)
 //@   ensures[leaf-conforms]{C05} depth > 0 && !isnilv(obj) && !is(t, *List) && !is(t, *Object) && !is(t, *Schema) && !is(t, *Interface) && !is(t, *uuSchema) && !is(t, *NonNull) && !is(t, *Union) && is(t, OutCoercer) && len(ea) == 0 ==> conformsOut(result, t)
 //@   ensures[leaf-error-null]{C05} depth > 0 && !isnilv(obj) && !is(t, *List) && !is(t, *Object) && !is(t, *Schema) && !is(t, *Interface) && !is(t, *uuSchema) && !is(t, *NonNull) && !is(t, *Union) && len(ea) > 0 ==> result == nil
-//@   assigns fresh, H_Field.ConType, H_Object.meta, held, #res
+//@   assigns fresh, H_Field.ConType, H_Object.meta, H_FieldDef.goField, H_FieldDef.method, H_FieldDef.args, held, #res
 //@   ensures[locks-balanced]{C12,C20} held == old(held)
 //@   loop 0: invariant[bounds] 0 <= rangeindex+1 && rangeindex+1 <= len(tt.Members)
 //@           decreases len(tt.Members) - rangeindex
@@ -864,6 +861,7 @@ package ggql
 //@ spec oldPathsKept(prev []error, dummy int) bool = forall k int {prev[k]} :: 0 <= k && k < len(prev) && aserr(prev[k]) != nil ==> aserr(prev[k]).Path == athdr(aserr(prev[k]).Path)
 
 //@ func (*Root).resolveList
+//@   requires[binding-locks-free]{C12} onlyRegistryLock(root)
 //@   decreases{C03} depth
 //@   decreases 1
 //@   decreases 0
@@ -874,7 +872,7 @@ package ggql
 //@   ensures[errs-fresh]{C06} errsFresh(ea)
 //@   ensures[iface-list-len]{C01} is(obj, []interface{}) ==> is(result, []interface{}) && len(as(result, []interface{})) == len(as(obj, []interface{}))
 //@   ensures[listresolver-len]{C01} is(obj, ListResolver) && as(obj, ListResolver).Len() >= 0 ==> is(result, []interface{}) && len(as(result, []interface{})) == as(obj, ListResolver).Len()
-//@   assigns fresh, H_Field.ConType, H_Object.meta, held, #res
+//@   assigns fresh, H_Field.ConType, H_Object.meta, H_FieldDef.goField, H_FieldDef.method, H_FieldDef.args, held, #res
 //@   ensures[locks-balanced]{C12,C20} held == old(held)
 //@   loop 0: invariant[bounds] 0 <= i && (i <= cnt || i == 0)
 //@           invariant[len] len(rlist) == i
@@ -902,6 +900,7 @@ package ggql
 //@           decreases cnt - i
 
 //@ func (*Root).resolveField
+//@   requires[binding-locks-free]{C12} onlyRegistryLock(root)
 //@   decreases{C03} depth
 //@   decreases 1
 //@   decreases 0
@@ -916,10 +915,11 @@ package ggql
 //@   ensures[key-frame]{C01} forall k string :: k != fkey(field) ==> (has(result, k) <==> old(has(result, k))) && result[k] == old(result[k])
 //@   ensures[typename]{C01} old(field.ConType) != nil && field.Name == "__typename" ==> has(result, fkey(field)) && result[fkey(field)] == box(t.Name()) && len(ea) == 0 && #res == old(#res)
 //@   ensures[undefined-field]{C10} old(field.ConType) != nil && !isMetaName(field.Name) && old(fdOf(t, field.Name)) == nil ==> len(ea) > 0 && #res == old(#res) && (has(result, fkey(field)) <==> old(has(result, fkey(field)))) && result[fkey(field)] == old(result[fkey(field)])
-//@   assigns fresh, result, H_Field.ConType, H_Object.meta, held, #res
+//@   assigns fresh, result, H_Field.ConType, H_Object.meta, H_FieldDef.goField, H_FieldDef.method, H_FieldDef.args, held, #res
 //@   ensures[locks-balanced]{C12,C20} held == old(held)
 
 //@ func (*Root).resolveFieldSels
+//@   requires[binding-locks-free]{C12} onlyRegistryLock(root)
 //@   decreases{C03} depth
 //@   decreases 4
 //@   decreases 0
@@ -931,7 +931,7 @@ package ggql
 //@   requires t != nil
 //@   ensures[fresh-map]{C01} is(result, map[string]interface{}) && fresh(as(result, map[string]interface{}))
 //@   ensures[errs-fresh]{C06} errsFresh(ea)
-//@   assigns fresh, H_Field.ConType, H_Object.meta, held, #res
+//@   assigns fresh, H_Field.ConType, H_Object.meta, H_FieldDef.goField, H_FieldDef.method, H_FieldDef.args, held, #res
 //@   ensures[locks-balanced]{C12,C20} held == old(held)
 
 //@ -- ------------------------------------------------------------------ ResolveExecutable (C01 operation choice, C04 variables, C07 shape)
@@ -940,10 +940,11 @@ package ggql
 //@ -- (*Root).subscribe: contract in verif_contracts_c19.go
 
 //@ func (*Root).ResolveExecutable
+//@   requires[binding-locks-free]{C12} onlyRegistryLock(root)
 //@   props C01
 //@   check panic {C03}
 //@   check frame {C11}
-//@   assigns fresh, root.subscriptions, H_Field.ConType, H_Object.meta, held, #res
+//@   assigns fresh, root.subscriptions, H_Field.ConType, H_Object.meta, H_FieldDef.goField, H_FieldDef.method, H_FieldDef.args, held, #res
 //@   ensures[locks-balanced]{C12,C20} held == old(held)
 //@   requires root != nil && exe != nil
 //@   requires root.schema != nil
